@@ -312,7 +312,33 @@ def ob_quadrature(seed):
             n += 1
             if abs(code - ref) > 1e-8 * max(1, abs(ref)):
                 raise Refuted("ConstantCoalescentIntegrated: code %r vs quadrature %r" % (code, ref), witness={"tips": tips, "heights": hs, "alpha": alpha, "beta": beta}, confirmed=True)
-        return {"backend": "mpmath quadrature", "cases": n, "statement": "integrated priors equal numerical integration of prior x density at sampled points"}
+        # several priors that share some but not all hyper-parameters (and the number of taxa / field length), evaluated one after the other in
+        # this process: nothing may be remembered from one to the next under a key that leaves a hyper-parameter out
+        tips4, hs4 = [0.0, 0.0, 0.3, 0.7], [1.1, 1.9, 3.2]
+        tot4 = -float(kingman.log_density(tips4, hs4, kingman.Constant(1.0)))
+        x4 = [0.3, -0.4, 0.9, 0.2]
+        ss4 = sum((x4[i + 1] - x4[i]) ** 2 for i in range(3))
+        for order in ([(2.0, 0.5), (2.0, 4.0), (0.001, 0.001), (0.001, 1.0), (3.5, 4.0)], [(0.001, 1.0), (2.0, 4.0), (2.0, 0.5)]):
+            for alpha, beta in order:
+                code = float(co.ConstantCoalescentIntegrated(alpha, beta).log_prob(torch.tensor(tips4 + hs4, dtype=torch.float64)))
+
+                def f3(theta):
+                    return mp.e ** (alpha * mp.log(beta) - mp.loggamma(alpha) - (alpha + 1) * mp.log(theta) - beta / theta) * theta ** (-3) * mp.e ** (-tot4 / theta)
+                ref = float(mp.log(mp.quad(f3, [0, 0.01, 0.5, 5, 100, mp.inf])))
+                n += 1
+                if abs(code - ref) > 1e-7 * max(1, abs(ref)):
+                    raise Refuted("ConstantCoalescentIntegrated(alpha=%g, beta=%g) evaluated after other priors in the same process: code %r vs quadrature %r" % (alpha, beta, code, ref),
+                                  witness={"alpha": alpha, "beta": beta, "order": order}, confirmed=True)
+                code = float(gi.GMRFGammaIntegrated("g", Parameter("x", torch.tensor(x4, dtype=torch.float64)), alpha, beta)._call())
+
+                def f4(tau):
+                    return mp.e ** (alpha * mp.log(beta) - mp.loggamma(alpha) + (alpha - 1) * mp.log(tau) - beta * tau) * (tau / (2 * mp.pi)) ** 1.5 * mp.e ** (-tau * ss4 / 2)
+                ref = float(mp.log(mp.quad(f4, [0, 0.01, 1, 10, 1000, mp.inf])))
+                n += 1
+                if abs(code - ref) > 1e-7 * max(1, abs(ref)):
+                    raise Refuted("GMRFGammaIntegrated(alpha=%g, beta=%g) evaluated after other priors in the same process: code %r vs quadrature %r" % (alpha, beta, code, ref),
+                                  witness={"alpha": alpha, "beta": beta, "order": order}, confirmed=True)
+        return {"backend": "mpmath quadrature", "cases": n, "statement": "integrated priors equal numerical integration of prior x density at sampled points and on a grid of shared hyper-parameters evaluated in one process"}
     return Ob("C20.integrated.quadrature", "B", body, clause="closed form equals numerical integration (bounded)", funcs=FUNCS)
 
 
@@ -460,6 +486,53 @@ def replay_dtype(args):
     return True, "held"
 
 
+def ob_precision_matrix_held():
+    """the matrix precision_matrix() returns is a VALUE: a caller that keeps it (the block-update sampler keeps the matrix of the current state
+    while it asks for the matrix of the proposed precision) still holds the matrix of the state it was asked for after the model has moved on"""
+    def body():
+        import torchtree.distributions.gmrf as gm
+        from torchtree.core.parameter import Parameter
+        t64 = lambda v: torch.tensor(v, dtype=torch.float64)
+        n = 0
+        for N in (3, 5):
+            x = Parameter("x", t64([0.3 * (i % 3) - 0.2 * i for i in range(N)]))
+            tau = Parameter("tau", t64([2.0]))
+            g = gm.GMRF("gmrf", x, tau)
+            D = torch.zeros(N - 1, N, dtype=torch.float64)
+            for i in range(N - 1):
+                D[i, i], D[i, i + 1] = -1.0, 1.0
+            held = []
+            for step, tv in enumerate((2.0, 5.0, 0.5)):
+                tau.tensor = t64([tv])
+                Q = g.precision_matrix()
+                val = float(g().sum())
+                held.append((tv, Q, val))
+                for tv_, Q_, val_ in held:
+                    want = tv_ * (D.T @ D)
+                    n += 1
+                    if tuple(Q_.shape[-2:]) != (N, N) or not torch.allclose(Q_.reshape(N, N).double(), want, rtol=1e-12, atol=1e-12):
+                        raise Refuted("GMRF (N=%d): the matrix returned by precision_matrix() for precision %g reads %s after the precision was set to %g and the matrix asked for again; "
+                                      "it was %s" % (N, tv_, Q_.reshape(N, N).tolist(), tv, want.tolist()), witness={"N": N, "held_for": tv_, "now": tv}, confirmed=True,
+                                      replay={"kind": "custom", "contract": "C20", "func": "replay_precision_matrix_held", "args": {}})
+                    xv = x.tensor.double()
+                    quad = float(xv @ Q_.reshape(N, N).double() @ xv)
+                    spec = 0.5 * (N - 1) * math.log(tv_) - 0.5 * quad - 0.5 * (N - 1) * math.log(2 * math.pi)
+                    if abs(spec - val_) > 1e-10 * max(1.0, abs(val_)):
+                        raise Refuted("GMRF (N=%d): the held matrix for precision %g no longer reproduces the density %r the model reported for that state (quadratic form gives %r)" % (
+                            N, tv_, val_, spec), witness={"N": N, "held_for": tv_}, confirmed=True,
+                            replay={"kind": "custom", "contract": "C20", "func": "replay_precision_matrix_held", "args": {}})
+        return {"backend": "concrete", "cases": n, "statement": "%d held precision matrices still equal tau D'D of the state they were asked for and reproduce its density" % n}
+    return Ob("C20.gmrf.precision_matrix.held", "B", body, clause="the published precision matrix is a value, not a live buffer (bounded)", funcs=FUNCS)
+
+
+def replay_precision_matrix_held(args):
+    try:
+        ob_precision_matrix_held().fn()
+    except Refuted as e:
+        return False, e.detail
+    return True, "held"
+
+
 def ob_suffstat_ties():
     """ties: a coalescent time (or the root, or a sampling time) EXACTLY on a grid point — measure zero for the symbolic obligations, which
     assume distinct times, but ordinary for grids at round numbers.  The density rebuilt from the sufficient statistics and coalescent counts
@@ -517,6 +590,7 @@ def obligations(tier, seed):
         obs.append(ob_history(kind, 3 if tier == "quick" else 4))
         obs.append(ob_dtype(kind))
     obs.append(ob_json_variants())
+    obs.append(ob_precision_matrix_held())
     obs.append(ob_suffstat_ties())
 
     def add(name, factory, args, clause, **kw):
